@@ -92,6 +92,10 @@ fn main() {
         compactkill_stream(&a);
         return;
     }
+    if a.stream == "l0span" {
+        l0span_stream(&a);
+        return;
+    }
     let (crashes, immut) = match a.stream.as_str() {
         "compact" => (false, false),
         "compactcrash" => (true, false),
@@ -319,6 +323,109 @@ pub fn compactkill_stream(a: &snel_harness::out::Args) {
         match fail {
             None => st.oracle_ok(),
             Some((c, d)) => st.oracle_fail(i, &c, &format!("{d}; {desc}")),
+        }
+    }
+    st.finish();
+}
+
+/// C11, oracle-only: the level-0 id counter of one process lifetime against the level span.
+/// Every rotation consumes a level-0 id, also the rotation of an empty memtable by FLUSH, so a
+/// case can drive the counter to any value cheaply. Case 0 is the witness of
+/// `C11_l0_range_overflow_fails` (counter = 10000 while directory 10000 exists), case 1 lets the
+/// counter pass the span without meeting a directory, the others stay below it.
+pub fn l0span_stream(a: &snel_harness::out::Args) {
+    use serde_json::json;
+    use snel_harness::sys::Session;
+    const SPAN: u64 = 10_000;
+    let mut st = Stream::create(&a.out, "l0span");
+    for i in 0..a.cases {
+        if a.only.is_some_and(|o| o != i) {
+            continue;
+        }
+        let mut r = Rng::for_case(a.seed, "l0span", i);
+        let cfg = SysCfg { event_per_zone: 2, fill_factor: 1, segments_per_merge: 2, ..Default::default() };
+        let root = a.out.join(format!("l0span-{i}"));
+        let _ = std::fs::remove_dir_all(&root);
+        let mut s = Session::start(&root, &cfg);
+        assert!(s.cmd("DEFINE ev0 FIELDS { k: \"int\" }").map(|x| x.ok()).unwrap_or(false));
+        let mut k = 0u64;
+        let mut counter = 0u64; // level-0 ids handed out in this lifetime
+        let store2 = |s: &mut Session, k: &mut u64, counter: &mut u64| {
+            for _ in 0..2 {
+                *k += 1;
+                assert!(s.cmd(&format!("STORE ev0 FOR c0 PAYLOAD {{\"k\":{k}}}")).map(|x| x.ok()).unwrap_or(false));
+            }
+            s.ctl(json!({"ctl": "await_flush"}));
+            *counter += 1;
+        };
+        // two (or more) flushed segments, one compaction round: directory 10000 exists
+        let nseg = 2 + 2 * r.below(2);
+        for _ in 0..nseg {
+            store2(&mut s, &mut k, &mut counter);
+        }
+        let _ = s.compact(0);
+        let t0 = std::time::Instant::now();
+        while s.shard_data_dir(0).join(".reclaim").read_dir().map(|d| d.count()).unwrap_or(0) > 0
+            && t0.elapsed().as_millis() < 3000
+        {
+            std::thread::sleep(std::time::Duration::from_millis(5));
+        }
+        std::thread::sleep(std::time::Duration::from_millis(100));
+        let l1_dirs: Vec<u64> = list_dirs(&s.shard_data_dir(0)).keys().filter_map(|n| n.parse::<u64>().ok()).filter(|n| *n >= SPAN).collect();
+        // where the counter shall stand at the final flush
+        let target = match i {
+            0 => SPAN,                       // meets directory 10000
+            1 => SPAN + nseg / 2 + r.below(3), // past every level-1 directory: no collision
+            _ => counter + r.below(400),     // below the span
+        };
+        let idle = target.saturating_sub(counter);
+        for _ in 0..idle {
+            assert!(s.cmd("FLUSH").map(|x| x.ok()).unwrap_or(false));
+            counter += 1;
+        }
+        let read = |s: &mut Session| -> Vec<i64> {
+            let q = s.cmd("QUERY ev0 RETURN [k]").expect("query");
+            let mut keys: Vec<i64> = q.col("k").iter().filter_map(|v| v.as_i64()).collect();
+            keys.sort();
+            keys
+        };
+        let before = read(&mut s);
+        let dirs_before = list_dirs(&s.shard_data_dir(0));
+        let at = counter;
+        store2(&mut s, &mut k, &mut counter);
+        let expect: Vec<i64> = (1..=k as i64).collect();
+        let desc = format!("l0span segs={nseg} l1dirs={l1_dirs:?} idle_flushes={idle} final_flush_id={at}");
+        let mut fail: Option<String> = None;
+        let dirs_after = list_dirs(&s.shard_data_dir(0));
+        for (name, fp) in &dirs_before {
+            match dirs_after.get(name) {
+                Some(fp2) if fp2 == fp => {}
+                Some(_) => { fail.get_or_insert(format!("directory {name} existed before the flush and was rewritten by it")); }
+                None => { fail.get_or_insert(format!("directory {name} disappeared")); }
+            }
+        }
+        let now = read(&mut s);
+        if now != expect && fail.is_none() {
+            fail = Some(format!("after the flush the selection is {now:?}, acknowledged {expect:?} (before the flush {before:?})"));
+        }
+        s.kill();
+        let mut s = Session::start(&root, &cfg);
+        let after = read(&mut s);
+        if after != expect && fail.is_none() {
+            fail = Some(format!("after restart the selection is {after:?}, acknowledged {expect:?}"));
+        }
+        drop(s);
+        let _ = std::fs::remove_dir_all(&root);
+        st.tally(if at >= SPAN { "counter_past_span" } else { "counter_below_span" });
+        st.tally_n("idle_flushes", idle);
+        st.case(&desc, "-", true);
+        match fail {
+            None => st.oracle_ok(),
+            Some(d) => {
+                // the finding: the final flush was handed an id outside the level-0 range
+                let class = if at >= SPAN { "l0-counter-runs-into-l1-range" } else { "-" };
+                st.oracle_fail(i, class, &format!("{d}; {desc}"))
+            }
         }
     }
     st.finish();
